@@ -144,6 +144,16 @@ def run(res: Results, idx: Index, tier: str) -> None:
     rule_f(res, idx, tier)
     rule_g(res, idx)
     rule_h(res, idx)
+    if not getattr(res, "_nested_xref", False):
+        # a memo that forgets a parameter ignores that argument on every later call (C14 R-C14g)
+        from . import c14
+        res.rule("R-C19i", "memoised abstract evaluations / lowerings are keyed by every argument (C14 R-C14g)", floor=1)
+        sub = Results("C14", tier)
+        setattr(sub, "_nested_xref", True)
+        c14.rule_g(sub, idx)
+        for inst in sub.instances:
+            if inst.rule == "R-C14g":
+                res.add("R-C19i", inst.status, inst.site, f"R-C14g::{inst.key}", f"[C14 R-C14g] {inst.detail}", inst.func)
 
 
 def rule_f(res: Results, idx: Index, tier: str) -> None:
